@@ -993,6 +993,11 @@ func condKey(cond ssa.Value, pol bool) (string, bool) {
 			}
 			return "eq:" + a + "," + b, pol
 		}
+	case *ssa.Extract:
+		// the `ok` of a comma-ok lookup / type assertion / receive: an SSA value, the same whenever it is tested again
+		if b, ok := x.Type().Underlying().(*types.Basic); ok && b.Kind() == types.Bool {
+			return "val:" + x.Parent().Name() + "." + x.Name(), pol
+		}
 	}
 	return "", pol
 }
